@@ -388,7 +388,12 @@ func diffCheck(prop string) func(sc *Scenario, st *Stats) []Violation {
 					}
 				} else {
 					for k := 0; k < maxCuts; k++ {
-						chosen = append(chosen, r.Intn(len(limits)))
+						if k%3 == 2 && nestedFrom < len(limits) {
+							// every third cut lands inside a nested frame when there is one
+							chosen = append(chosen, nestedFrom+r.Intn(len(limits)-nestedFrom))
+						} else {
+							chosen = append(chosen, r.Intn(len(limits)))
+						}
 					}
 					sort.Ints(chosen)
 				}
